@@ -20,6 +20,7 @@ PROP = [  # (keyword in commit subject, property, signature of the finding it re
  ("missing numeric category label", "C08", "numeric-category-none"), ("str.isdigit", "C06", "shape-id-isdigit-not-int"),
  ("slide-image placeholder", "C13", "add_slide-raises-Key:sldImg"), ("header or slide-image placeholder", "C13", "geometry-raises-Key:hdr"),
  ("empty category label read back", "C07", "empty-category-label-reads-None"),
+ ("reading Shape.text", "C12", "accessor:Shape.text"), ("reading _Cell.text", "C12", "accessor:_Cell.text"), ("reading DataLabels.show_", "C12", "accessor:DataLabels.show_*"),
  ("EMF images", "C15", "emf-stored-as-wmf"), ("TIFF without resolution", "C15", "tiff-without-resolution-sized-at-1dpi"),
 ]
 k = json.load(open(os.path.join(V, "known_findings.json")))
